@@ -29,11 +29,17 @@ pub enum Flavor {
 #[derive(Debug, Clone)]
 struct VetoFilter {
     ip: Ipv4Addr,
+    /// veto only the write requests of that IP (a read-only gateway): the verdict depends on the request
+    writes_only: bool,
 }
 
 impl RequestFilter for VetoFilter {
-    fn allow_request(&self, _request: &RequestSpecific, from: SocketAddrV4) -> bool {
-        *from.ip() != self.ip
+    fn allow_request(&self, request: &RequestSpecific, from: SocketAddrV4) -> bool {
+        if *from.ip() != self.ip {
+            return true;
+        }
+        // (the request-type enum is not nameable from outside the crate; its Debug form is)
+        self.writes_only && !format!("{:?}", request.request_type).starts_with("Put")
     }
 }
 
@@ -152,6 +158,7 @@ enum TokVerdict {
 
 struct Model {
     veto: Option<Ipv4Addr>,
+    veto_writes_only: bool,
     imm: Lru<Vec<u8>>,
     mutable: Lru<MutVal>,
     peers: Lru<Lru<SocketAddrV4>>,
@@ -270,8 +277,12 @@ impl Model {
         }
 
         let q = req.query_name().unwrap_or("").to_string();
-        if Some(*from.ip()) == self.veto {
+        let is_write = matches!(q.as_str(), "put" | "announce_peer" | "announce_signed_peer");
+        if Some(*from.ip()) == self.veto && (!self.veto_writes_only || is_write) {
             self.probe("filtered_request");
+            if self.veto_writes_only {
+                self.probe("filtered_write_of_a_source_whose_reads_are_allowed");
+            }
             if reply.is_some() {
                 return Err(fail("filter", "filtered-request-answered", format!("request {q} from vetoed {from} was answered")));
             }
@@ -795,8 +806,9 @@ pub fn run(ctx: &RunCtx, flavor: Flavor) -> Report {
     } else {
         None
     };
+    let veto_writes_only = veto.is_some() && Rng::new(crate::rng::key(ctx.seed, &[crate::rng::tag("veto-writes-only")])).chance(1, 2);
     if let Some(ip) = veto {
-        settings.filter = Box::new(VetoFilter { ip });
+        settings.filter = Box::new(VetoFilter { ip, writes_only: veto_writes_only });
     }
     let mut spec = NodeSpec::new(server_ip, 6881).server();
     spec.settings = Some(settings.clone());
@@ -1322,6 +1334,7 @@ pub fn run(ctx: &RunCtx, flavor: Flavor) -> Report {
     // ---- model pass, in the order the server consumed the datagrams
     let mut model = Model {
         veto,
+        veto_writes_only,
         imm: Lru::new(settings.max_immutable_values),
         mutable: Lru::new(settings.max_mutable_values),
         peers: Lru::new(settings.max_info_hashes),
